@@ -194,6 +194,22 @@ def mutate(data, rng):
     n = int(rng.integers(0, 23))
     if data[:4].upper() == b"#VNA" and rng.random() < 0.2:
         n = 21 + int(rng.integers(0, 2))   # calibration files: key / value edits
+    if b"[Number of " in data and rng.random() < 0.25:
+        # Touchstone 2: the value of one "[Number of ...]" keyword replaced
+        # by a small, a boundary or an overflowing count (products of two
+        # such counts size the loader's tables)
+        lines = data.split(b"\n")
+        hdr = [k for k, ln in enumerate(lines) if ln.lstrip().lower().startswith(
+            b"[number of ")]
+        if hdr:
+            k = hdr[int(rng.integers(0, len(hdr)))]
+            head = lines[k].split(b"]")[0] + b"]"
+            val = bytes(rng.choice([b"0", b"-1", b"1", b"2", b"3", b"5", b"9",
+                                    b"65535", b"65536", b"46340", b"46341",
+                                    b"131072", b"2147483647", b"2147483648",
+                                    b"4294967296", b"4294967297"]))
+            lines[k] = head + b" " + val
+            return b"\n".join(lines)
     if data[:4] == b"#NPD" and rng.random() < 0.35:
         # NPD header: a "#:keyword value" line inserted or its value replaced
         lines = data.split(b"\n")
@@ -214,7 +230,8 @@ def mutate(data, rng):
                 val = bytes(rng.choice([b"1.0", b"1.1", b"2.0", b"0.9"]))
             else:
                 val = bytes(rng.choice([b"0", b"1", b"2", b"3", b"4", b"5", b"8",
-                                        b"-1", b"65536"]))
+                                        b"-1", b"65536", b"46341", b"65535",
+                                        b"2147483647", b"4294967297"]))
                 if rng.random() < 0.5:
                     # a little more than the dimensions the header states
                     ints = [int(x) for ln in lines if ln.startswith(b"#:")
